@@ -81,6 +81,63 @@ def collect_refs(d, out):
             collect_refs(v, out)
 
 
+def config_override_case(rng, rec, fam):
+    """Config.json_schema: a hand-written schema for a member REPLACES what the builder would derive (also for members the builder
+    cannot describe at all: an opaque third-party type, a reference back to the class itself); additionalProperties as given."""
+    from jsonschema import Draft202012Validator
+    from mashumaro.jsonschema import OPEN_API_3_1, DRAFT_2020_12, JSONSchemaBuilder, build_json_schema
+    addl = rng.choice([True, False, None])
+    base = "(DataClassDictMixin)" if rng.random() < 0.5 else ""
+    src = ("class Opaque:\n    pass\n"
+           f"@dataclass\nclass Ov{base}:\n    tp: Opaque = field(default_factory=Opaque, metadata=field_options(serialization_strategy=pass_through))\n"
+           "    nxt: Optional['Ov'] = None\n    kids: List['Ov'] = field(default_factory=list)\n    n: int = 0\n    d: datetime.date = datetime.date(2000, 1, 1)\n"
+           "    class Config(BaseConfig):\n        json_schema = {'properties': {'tp': {'type': 'string', 'description': 'opaque'}, 'nxt': {'type': 'object'}, "
+           "'kids': {'type': 'array', 'items': {'type': 'object'}}, 'd': {'type': 'integer'}}"
+           + (f", 'additionalProperties': {addl}" if addl is not None else "") + "}\n")
+    fam.exec_src(src)
+    m = fam.module
+    facts = {"kind": "config-override"}
+    for all_refs in (False, True):
+        rec.evaluation()
+        try:
+            builder_defs = None
+            if rng.random() < 0.5:
+                s = build_json_schema(m.Ov, all_refs=all_refs)
+            else:
+                b = JSONSchemaBuilder(rng.choice([DRAFT_2020_12, OPEN_API_3_1]), all_refs=all_refs)
+                s = b.build(m.Ov)
+                builder_defs = json.loads(json.dumps(b.get_definitions().to_dict()))
+            sd = s.to_dict()
+        except RecursionError:
+            rec.violation("config-override:RecursionError", {"source": src, "all_refs": all_refs}, dict(facts, exc="RecursionError"))
+            continue
+        except Exception as e:
+            rec.violation(f"config-override:{type(e).__name__}", {"source": src, "all_refs": all_refs, "error": f"{type(e).__name__}: {e}"[:300]}, dict(facts, exc=type(e).__name__))
+            continue
+        body = sd
+        if all_refs:
+            defs = builder_defs or sd.get("$defs") or (sd.get("components") or {}).get("schemas") or {}
+            body = defs.get("Ov", sd)
+        props = body.get("properties") or {}
+        problems = []
+        if (props.get("tp") or {}).get("type") != "string" or (props.get("tp") or {}).get("description") != "opaque":
+            problems.append(f"tp: {props.get('tp')!r}")
+        if (props.get("nxt") or {}).get("type") != "object":
+            problems.append(f"nxt: {props.get('nxt')!r}")
+        if (props.get("d") or {}).get("type") != "integer":
+            problems.append(f"d: {props.get('d')!r}")
+        if (props.get("n") or {}).get("type") != "integer":
+            problems.append(f"n: {props.get('n')!r}")
+        if body.get("additionalProperties", "absent") != (False if addl is None else addl):
+            problems.append(f"additionalProperties: {body.get('additionalProperties', 'absent')!r}")
+        if problems:
+            rec.violation("config-override:member-schema-not-the-one-given", {"source": src, "all_refs": all_refs, "problems": problems, "schema": common.short(sd, 600)}, facts)
+        else:
+            rec.count("schemas_ok")
+            rec.count("config_overrides_ok")
+            rec.nontrivial(("config-override", all_refs, addl, base))
+
+
 def plugin_chain_case(rng, rec, fam):
     """every plugin of the chain is consulted; one that raises NotImplementedError ('not my instance') is skipped, the
     others still apply, in any order of registration."""
@@ -205,8 +262,10 @@ def run_case(seed, tier, rec, st):
                          "    f: GS[str] = field(default_factory=lambda: GS('x'))\n"
                          "    class Config(BaseConfig):\n        serialization_strategy = {str: {'serialize': norm_str}, datetime.datetime: {'serialize': norm_dt}}\n")
             types_ = [("raw", "SR"), ("raw", "GS[str]"), ("raw", "GS[datetime.datetime]")]
-        elif kind < 0.29:
+        elif kind < 0.28:
             return plugin_chain_case(rng, rec, fam)
+        elif kind < 0.30:
+            return config_override_case(rng, rec, fam)
         elif kind < 0.33:
             # field-level overrides on collections whose ELEMENTS are composite (Optional / tuple / NamedTuple members): the
             # option is the field's, the element positions below it are described by the built-in rules
@@ -398,6 +457,22 @@ def run_case(seed, tier, rec, st):
                     rec.violation("builder:disagrees-with-one-shot-call", {"type": tsrc, "builder": common.short(docs[0], 400), "one_shot": common.short(one, 400),
                                   "args": {"all_refs": all_refs, "ref_prefix": prefix}}, facts)
                 rec.count("builder_sequences")
+                # one-shot calls that share ONE context, each asked for its own definitions: every returned document is closed
+                from mashumaro.jsonschema.models import Context
+                shared = Context(dialect=dialect, all_refs=True)
+                for step, ty in enumerate(seq):
+                    doc = build_json_schema(ty, context=shared, with_definitions=True).to_dict()
+                    own = set((doc.get("$defs") or (doc.get("components") or {}).get("schemas") or doc.get("definitions") or {}).keys())
+                    refs = []
+                    collect_refs(doc, refs)
+                    dangling = [r for r in refs if r.rsplit("/", 1)[-1] not in own]
+                    rec.count("refs_checked", len(refs))
+                    if dangling:
+                        rec.violation("shared-context:one-shot-document-not-closed", {"type": tsrc, "step": step, "dangling": dangling[:5], "own_definitions": sorted(own),
+                                      "document": common.short(doc, 500)}, facts)
+                        break
+                else:
+                    rec.count("shared_context_documents_closed")
             except RecursionError:
                 rec.violation("builder:RecursionError", {"type": tsrc}, dict(facts, exc="RecursionError"))
             except Exception as e:
